@@ -25,6 +25,13 @@ type parsedOption struct {
 
 func optionFullName(opt *optionreflect.OptionDefinition) string {
 
+	if !opt.RootType.IsExtension() {
+		// Options defined by descriptor.proto itself (deprecated, packed, ...)
+		// are written by their plain field name, only extensions take the
+		// parenthesised form.
+		return strings.Join(append([]string{string(opt.RootType.Name())}, opt.SubPath...), ".")
+	}
+
 	name, err := contextRefName(opt.Context, opt.RootType)
 	if err != nil {
 		panic(err.Error())
